@@ -18,6 +18,24 @@ CLAIMS = {
             "DESIGN.md section 9 C15",
             TB + "; iteration over bytes yields elements in order",
             "deductive: AST->VC (loop invariant, BV64 + nowrap obligations), z3; bounded monitor underneath"),
+    "C08": ("proof",
+            "contracts on the real AesEncryptorMixin.encrypt/decrypt, SoftwareCustKeyEncryptor, ConfigSecurityCodeEncryptor: "
+            "frame shape for every payload length (symbolic L, 0..253 accepted, 254+ OverflowError), pad in [1,16], whole "
+            "blocks, exact inverse, decrypt on an arbitrary frame returns only for marker 'B' + matching CRC, customer key "
+            "slot overwritten/verified/blanked, key = SHA256(code)[:16]; callees (AES adapter, crc8404B) through their C16/C15 "
+            "contracts; bounded run-time monitor on the real plug-in for all lengths 0..253 and CRC byte classes",
+            "DESIGN.md section 9 C08",
+            TB + "; 'a frame made under another key is an error' is probabilistic (1-2^-24) and not claimed",
+            "deductive: AST->VC over ropes (LIA with mod 16), callee contracts, z3; bounded monitor underneath"),
+    "C16": ("proof",
+            "layered contracts on the real pyaes + adapter: 3 614 table entries against the GF(2^8) definitions (evaluation), "
+            "AES.encrypt/decrypt round loops by loop contract for ALL round keys and blocks (S-box uninterpreted), key schedule "
+            "for all keys, ECB/CBC block methods, adapter = zero-padded CBC / exact inverse / MAC = last block / frame, "
+            "bad lengths -> ValueError; the adapter level is proved per data length 1..33 (quick) / 1..80 (thorough) with "
+            "symbolic content (bounded in length, stated in the evidence); CFB/OFB/CTR and chunked feeding: bounded monitor",
+            "DESIGN.md section 9 C16",
+            TB + "; D_k(E_k(x)) = x taken from FIPS-197 (per-round lemmas proved); adapter proofs bounded in data length",
+            "deductive: AST->VC (BV, loop contracts, uninterpreted S-box) + ground evaluation of tables, z3"),
 }
 
 NA_DEFAULT = "check not built yet (construction in progress, see DESIGN.md section 14)"
